@@ -64,11 +64,11 @@ Proof.
     exists sg, p. rewrite Hp. repeat split; auto. discriminate.
 Qed.
 
-Lemma running_of (s : state) i : Inv s -> pc s = length (stages s) ->
-  (i < length (stages s))%nat -> done_at A s i = false ->
+Lemma running_of (s : state) i : Inv s -> (i < pc s)%nat -> done_at A s i = false ->
   exists sg, nth_error (stages s) i = Some sg /\ sst sg = Running.
 Proof.
-  intros HI Hpc Hlt Hd. destruct (nth_error (stages s) i) as [sg|] eqn:Hn.
+  intros HI Hlt Hd. pose proof (inv_pc _ _ _ HI) as Hpc.
+  destruct (nth_error (stages s) i) as [sg|] eqn:Hn.
   - exists sg. split; [reflexivity|]. unfold done_at in Hd. rewrite Hn in Hd.
     destruct (sst sg) eqn:Hst; [|reflexivity|unfold is_done in Hd; rewrite Hst in Hd; discriminate].
     apply (inv_started _ _ _ HI _ _ Hn) in Hst. lia.
@@ -87,26 +87,26 @@ Proof.
     rewrite (inv_len _ _ _ HI) in Hil; [lia|].
   destruct (inv_pipes _ _ _ HI i p Hpi) as [_ [_ Hrd']].
   destruct (done_at A s (S i)) eqn:Hdn; [congruence|].
-  destruct (running_of s (S i) HI Hpc) as [sg2 [Hn2 Hr2]]; [lia|exact Hdn|].
+  destruct (running_of s (S i) HI) as [sg2 [Hn2 Hr2]]; [lia|exact Hdn|].
   apply (IH (S i) sg2); [lia|exact Hn2|exact Hr2|].
   intros [sg3 [j [p3 [Hj [_ [_ [Hp3 [Hb3 _]]]]]]]]. inversion Hj; subst j.
   rewrite Hpi in Hp3. inversion Hp3; subst p3. rewrite Hb3 in Hfull. cbn in Hfull. lia.
 Qed.
 
 (** blocked on an empty pipe: look left *)
-Lemma chain_left s : Inv s -> pc s = length (stages s) ->
-  forall i sg, nth_error (stages s) i = Some sg -> sst sg = Running -> ~ wblocked s i ->
+Lemma chain_left s : Inv s ->
+  forall i sg, (i < pc s)%nat -> nth_error (stages s) i = Some sg -> sst sg = Running -> ~ wblocked s i ->
     exists i' s', next s (LStage i' 1) = Some s'.
 Proof.
-  intros HI Hpc. induction i as [|i IH]; intros sg Hn Hr Hnw;
+  intros HI. induction i as [|i IH]; intros sg Hipc Hn Hr Hnw;
     (destruct (step_or_blocked s _ sg HI Hn Hr) as [[s' H]|[Hw|Hb]]; [eauto | contradiction | ]);
     destruct Hb as [sg' [j [p [Hj [Hn' [Hsp [Hpj [Hemp Hwr]]]]]]]]; [discriminate|].
   inversion Hj; subst j.
   assert (Hlt : (S i < length (stages s))%nat) by (apply nth_error_Some; congruence).
   destruct (inv_pipes _ _ _ HI i p Hpj) as [_ [Hwr' _]].
   destruct (done_at A s i) eqn:Hdn; [congruence|].
-  destruct (running_of s i HI Hpc) as [sg2 [Hn2 Hr2]]; [lia|exact Hdn|].
-  apply (IH sg2 Hn2 Hr2).
+  destruct (running_of s i HI) as [sg2 [Hn2 Hr2]]; [lia|exact Hdn|].
+  apply (IH sg2); [lia|exact Hn2|exact Hr2|].
   intros [sg3 [p3 [_ [_ [Hp3 [Hfull _]]]]]].
   rewrite Hpj in Hp3. inversion Hp3; subst p3. rewrite Hemp in Hfull. cbn in Hfull. lia.
 Qed.
@@ -122,43 +122,52 @@ Proof.
   apply In_nth_error in Hin. destruct Hin as [i Hi]. eauto.
 Qed.
 
+(** once the spawn loop is through, something can always move until the waiter is done *)
+Lemma progress_all_started s : Inv s -> pc s = length (stages s) -> ~ final s ->
+  exists s', step C s s'.
+Proof.
+  intros HI Hpcn Hnf. unfold final in Hnf.
+  pose proof (inv_pc _ _ _ HI) as Hpc. pose proof (inv_wt _ _ _ HI) as Hwt.
+  destruct (existsb (fun sg : stage => is_running sg) (stages s)) eqn:Hrun.
+  - apply existsb_nth in Hrun. destruct Hrun as [i [sg [Hn Hr]]].
+    unfold is_running in Hr. destruct (sst sg) eqn:Hst; try discriminate.
+    assert (Hlt : (i < length (stages s))%nat) by (apply nth_error_Some; congruence).
+    assert (Hen : exists i' s', next s (LStage i' 1) = Some s').
+    { destruct (step_or_blocked s i sg HI Hn Hst) as [[s' H]|[Hw|Hb]]; [eauto| |].
+      - apply (chain_right s HI Hpcn (length (stages s) - 1 - i) i sg); auto; [lia|].
+        intros [sg3 [j [p3 [_ [Hn3 [Hs3 _]]]]]]. destruct Hw as [sg4 [p4 [Hn4 [Hs4 _]]]]. congruence.
+      - apply (chain_left s HI i sg); auto; [lia|].
+        intros [sg4 [p4 [Hn4 [Hs4 _]]]]. destruct Hb as [sg3 [j [p3 [_ [Hn3 [Hs3 _]]]]]]. congruence. }
+    destruct Hen as [i' [s' H]]. exists s', (LStage i' 1). exact H.
+  - (* nothing runs: the waiter collects the next status *)
+    assert (Hall : forall i sg, nth_error (stages s) i = Some sg -> exists c, sst sg = Done c).
+    { intros i sg Hn.
+      assert (Hlt : (i < length (stages s))%nat) by (apply nth_error_Some; congruence).
+      destruct (sst sg) eqn:Hst; [| |eauto].
+      - apply (inv_started _ _ _ HI _ _ Hn) in Hst. lia.
+      - exfalso. assert (Hin : In sg (stages s)) by (eapply nth_error_In; eauto).
+        assert (Hex : existsb (fun sg : stage => is_running sg) (stages s) = true).
+        { apply existsb_exists. exists sg. split; [exact Hin|]. unfold is_running. rewrite Hst. reflexivity. }
+        congruence. }
+    assert (Hbusy : inline_busy s = false).
+    { unfold inline_busy. destruct (existsb (fun sg : stage => is_inline sg && is_running sg) (stages s)) eqn:E; [|reflexivity].
+      apply existsb_nth in E. destruct E as [i [sg [Hn Hf]]]. apply andb_true_iff in Hf.
+      destruct Hf as [_ Hf]. destruct (Hall i sg Hn) as [c Hc]. unfold is_running in Hf.
+      rewrite Hc in Hf. discriminate. }
+    destruct (nth_error (stages s) (wt s)) as [sg|] eqn:Hn.
+    + destruct (Hall _ _ Hn) as [c Hc]. eexists. exists LWait. cbn [Sched.next].
+      rewrite Hpcn, Nat.eqb_refl, Hbusy, Hn, Hc. cbn. reflexivity.
+    + apply nth_error_None in Hn. lia.
+Qed.
+
 Lemma progress_inv s : Inv s -> inline_only_last (kinds A s) -> ~ final s ->
   exists s', step C s s'.
 Proof.
-  intros HI Hk Hnf. unfold final in Hnf.
-  pose proof (inv_pc _ _ _ HI) as Hpc. pose proof (inv_wt _ _ _ HI) as Hwt.
+  intros HI Hk Hnf.
+  pose proof (inv_pc _ _ _ HI) as Hpc.
   assert (Hkl : length (kinds A s) = length (stages s)) by (unfold kinds; apply map_length).
   destruct (Nat.eq_dec (pc s) (length (stages s))) as [Hpcn|Hpcn].
-  - destruct (existsb (fun sg : stage => is_running sg) (stages s)) eqn:Hrun.
-    + apply existsb_nth in Hrun. destruct Hrun as [i [sg [Hn Hr]]].
-      unfold is_running in Hr. destruct (sst sg) eqn:Hst; try discriminate.
-      assert (Hen : exists i' s', next s (LStage i' 1) = Some s').
-      { destruct (step_or_blocked s i sg HI Hn Hst) as [[s' H]|[Hw|Hb]]; [eauto| |].
-        - assert (Hlt : (i < length (stages s))%nat) by (apply nth_error_Some; congruence).
-          apply (chain_right s HI Hpcn (length (stages s) - 1 - i) i sg); auto; [lia|].
-          intros [sg3 [j [p3 [_ [Hn3 [Hs3 _]]]]]]. destruct Hw as [sg4 [p4 [Hn4 [Hs4 _]]]]. congruence.
-        - apply (chain_left s HI Hpcn i sg); auto.
-          intros [sg4 [p4 [Hn4 [Hs4 _]]]]. destruct Hb as [sg3 [j [p3 [_ [Hn3 [Hs3 _]]]]]]. congruence. }
-      destruct Hen as [i' [s' H]]. exists s', (LStage i' 1). exact H.
-    + (* nothing runs: the waiter collects the next status *)
-      assert (Hall : forall i sg, nth_error (stages s) i = Some sg -> exists c, sst sg = Done c).
-      { intros i sg Hn.
-        assert (Hlt : (i < length (stages s))%nat) by (apply nth_error_Some; congruence).
-        destruct (sst sg) eqn:Hst; [| |eauto].
-        - apply (inv_started _ _ _ HI _ _ Hn) in Hst. lia.
-        - exfalso. assert (Hin : In sg (stages s)) by (eapply nth_error_In; eauto).
-          assert (Hex : existsb (fun sg : stage => is_running sg) (stages s) = true).
-          { apply existsb_exists. exists sg. split; [exact Hin|]. unfold is_running. rewrite Hst. reflexivity. }
-          congruence. }
-      assert (Hbusy : inline_busy s = false).
-      { unfold inline_busy. destruct (existsb (fun sg : stage => is_inline sg && is_running sg) (stages s)) eqn:E; [|reflexivity].
-        apply existsb_nth in E. destruct E as [i [sg [Hn Hf]]]. apply andb_true_iff in Hf.
-        destruct Hf as [_ Hf]. destruct (Hall i sg Hn) as [c Hc]. unfold is_running in Hf.
-        rewrite Hc in Hf. discriminate. }
-      destruct (nth_error (stages s) (wt s)) as [sg|] eqn:Hn.
-      * destruct (Hall _ _ Hn) as [c Hc]. eexists. exists LWait. cbn [Sched.next].
-        rewrite Hpcn, Nat.eqb_refl, Hbusy, Hn, Hc. cbn. reflexivity.
-      * apply nth_error_None in Hn. lia.
+  - apply progress_all_started; assumption.
   - (* the spawn loop is not finished and is not inside an inline stage *)
     assert (Hbusy : inline_busy s = false).
     { unfold inline_busy. destruct (existsb (fun sg : stage => is_inline sg && is_running sg) (stages s)) eqn:E; [|reflexivity].
@@ -217,7 +226,7 @@ Lemma mu_decreases s s' : Inv s -> shape A C s s' -> (mu s' < mu s)%nat.
 Proof.
   clear HC. intros HI Hsh. pose proof (inv_len _ _ _ HI) as Hlen.
   destruct Hsh as [sg Hb Hn | sg c Hpcn Hb Hn Hd | i sg m Hn Hr Hl Hm1 Hm2
-                  | i sg p p' rest k Hn Hr Hp Hw | j sg p p' got q d t pend Hn Hr Hsp Hp Hrd Hpend
+                  | i sg p p' rest k Hn Hr Hp Hw | j sg p p' got q d t pend Hn Hr Hsp Hp Hrd Hpend Hrel
                   | i sg c Hn Hr]; unfold mu.
   - assert (Hlt : (pc s < length (stages s))%nat) by (apply nth_error_Some; congruence).
     cbn [stages pipes pc wt]. rewrite upd_length.
